@@ -1,6 +1,7 @@
 import Tea.Proofs.Modes
 import Tea.Proofs.Tty
 import Tea.Proofs.LifecycleExec
+import Tea.Proofs.Ticker
 /-
 C17 — Exec hands the terminal over and takes it back (mode part; termios in section 4).
 
@@ -446,5 +447,70 @@ example : (runLabels (init cfgX) ([.sendCall 0] ++ execRound 0 ++ [.elRecvSender
     (fun s => (s.el, s.senders.map (·.pc), (step s (.elRecvSender 4)).isSome)) =
     some (.callback, [.returned, .notCalled, .notCalled, .notCalled, .returned, .blocked], false) := by
   decide
+
+end Tea.Props.C17
+
+/-! ## 6. the renderer ticks again after the terminal is taken back (`Tea/Render/Ticker.lean`)
+
+"... input is read again, and the next view is fully repainted": the repaint is performed by the
+restarted renderer's next tick. Before the repair recorded in DESIGN §6 (`c17-ticker`) the listener of
+the previous run stopped the ticker AFTER having taken the stop signal, i.e. possibly after the
+restart had reset it: the restarted renderer then never ticked again. Found by a sub-agent writing a
+demonstration for a seeded change (its test failed 4 times in 9 on the unchanged tree when the exec'd
+command returned at once), replayed deterministically with the trace point `listen: stop received`
+(scenario `exec`, case restart-keeps-ticking). -/
+namespace Tea.Props.C17
+open Tea.Render.Ticker
+
+/-- THE DEFECT, as a run of the old handshake: start, halt (listener 0 takes the signal), start
+again (ticker reset, listener 1), and only then listener 0 stops the ticker. The renderer is
+running (`listening`), its listener waits at its select - and no tick is enabled, now or ever
+after, unless somebody calls `start` once more. -/
+theorem C17_restart_loses_ticker_old :
+    ∃ s, runWith stepOld {} [.start, .halt 0, .start, .after 0] = some s ∧
+      s.listening = true ∧ s.listeners = [.gone, .atSelect] ∧ s.tickerOn = false ∧
+      ∀ i, stepOld s (.tick i) = none := by
+  refine ⟨{ tickerOn := false, listening := true, listeners := [.gone, .atSelect] }, by decide, rfl, rfl, rfl, ?_⟩
+  intro i; simp [stepOld, tickStep]
+
+/-- the repaired handshake, EVERY interleaving of start / halt calls with the listeners: a renderer
+that is running has a running ticker ... -/
+theorem C17_running_renderer_has_ticker (s : St) (h : Reach stepNew s) (hl : s.listening = true) :
+    s.tickerOn = true :=
+  (inv_reach s h).1 hl
+
+/-- ... exactly one listener waits for it (none when the renderer is halted: no tick can paint
+while the terminal is released) ... -/
+theorem C17_one_listener (s : St) (h : Reach stepNew s) :
+    waiting s = if s.listening then 1 else 0 :=
+  (inv_reach s h).2
+
+/-- ... and so a tick is enabled: the restarted renderer paints -/
+theorem C17_restarted_renderer_ticks (s : St) (h : Reach stepNew s) (hl : s.listening = true) :
+    ∃ i s', stepNew s (.tick i) = some s' ∧ s'.ticks = s.ticks + 1 := by
+  have hi := inv_reach s h
+  have hw : waiting s = 1 := by rw [hi.2, hl]; rfl
+  obtain ⟨i, hi'⟩ := exists_waiting s.listeners hw
+  exact ⟨i, { s with ticks := s.ticks + 1 }, by simp [stepNew, tickStep, hi.1 hl, hi'], rfl⟩
+
+/-- while halted nothing ticks (C17: Bubble Tea writes nothing while the command runs) -/
+theorem C17_halted_renderer_silent (s : St) (h : Reach stepNew s) (hl : s.listening = false) (i : Nat) :
+    stepNew s (.tick i) = none := by
+  have hw : waiting s = 0 := by rw [(inv_reach s h).2, hl]; rfl
+  simp only [stepNew, tickStep]
+  split
+  · rename_i hc
+    have : LPc.atSelect ∈ s.listeners.filter (· == .atSelect) := by
+      simp only [List.mem_filter, beq_self_eq_true, and_true]
+      exact List.mem_of_getElem? hc.2
+    unfold waiting at hw
+    rw [List.length_eq_zero_iff] at hw
+    rw [hw] at this
+    simp at this
+  · rfl
+
+/-- the run of the defect, under the repaired handshake: the restarted renderer ticks -/
+example : (runWith stepNew {} [.start, .halt 0, .start, .after 0, .tick 1]).map (fun s => (s.tickerOn, s.ticks)) =
+    some (true, 1) := by decide
 
 end Tea.Props.C17
